@@ -343,3 +343,11 @@ Proof.
     repeat split; [apply A1|apply A1|apply A2|apply A2]; auto using ipos_sgn_only, ineg_sgn_only.
   - intros w. apply A3.
 Qed.
+
+(* the routine can only ever return on networks with at least four nodes: for n <= 3 the Python
+   recursion never ends (RecursionError), the model exhausts every stream *)
+Lemma pick4_needs_4 n s q s' : (0 < n)%nat -> pick4 n s = Some (q, s') -> (4 <= n)%nat.
+Proof.
+  intros Hn H. destruct (pick4_good n s q s' Hn H) as [Hg _].
+  destruct q as [[[a b] c] d]. destruct Hg as [(Ha & Hb & Hc & Hd) (Hab & Hac & Had & Hbc & Hbd & Hcd)]. lia.
+Qed.
